@@ -427,7 +427,8 @@ func runCLI(c *harness.Ctx, srng *rand.Rand, s, slot int) {
 	sz := dsu.Sizes{Min: 1024, Avg: 2048, Max: 4096}
 	blob := dsu.MakeBlob(srng, "random", 2048*(6+srng.Intn(8)), sz)
 	idx := dsu.RefIndex(blob, sz)
-	destKind := []string{"absent", "regular", "symlink"}[srng.Intn(3)]
+	// (long-name: a file whose name leaves no room for the suffix of a temporary file next to it)
+	destKind := []string{"absent", "regular", "symlink", "absent", "regular", "symlink", "long-name"}[srng.Intn(7)]
 	c.Info("scenario=%d entry=cli:%s n=%d chunks=%d signal=%v at request %d dest=%s", s, cmdName, n, len(idx.Chunks), sig, k, destKind)
 	c.LogInfo()
 	dir := c.CaseDir()
@@ -481,6 +482,9 @@ func runCLI(c *harness.Ctx, srng *rand.Rand, s, slot int) {
 		case "symlink":
 			dsu.WriteFile(behind, old)
 			os.Symlink(behind, dest)
+		case "long-name":
+			dest = filepath.Join(dir, strings.Repeat("d", 244+srng.Intn(12)))
+			dsu.WriteFile(dest, old)
 		}
 		args = []string{"extract", "-n", fmt.Sprint(n), "-s", srv.URL, "-e", "1"}
 		if cmdName == "extract-k" {
@@ -616,7 +620,7 @@ func runCLI(c *harness.Ctx, srng *rand.Rand, s, slot int) {
 					c.Violation("dest-touched:absent", "extract exited non-zero (%v) but the destination now exists (%s)", err, detail)
 					return
 				}
-			case "regular":
+			case "regular", "long-name":
 				if !bytes.Equal(got, old) {
 					c.Violation("dest-touched:regular", "extract exited non-zero (%v) but the destination file changed (%s)", err, detail)
 					return
@@ -673,7 +677,10 @@ func runCLI(c *harness.Ctx, srng *rand.Rand, s, slot int) {
 		c.Violation("success-on-incomplete:cli-"+cmdName, "desync %v exited 0 (signal %v at request %d delivered=%v) but the work is not complete: %s", args, sig, k, wasDelivered, detail)
 		return
 	}
-	if err != nil && !wasDelivered && cmdName != "verify-index" {
+	if err != nil && !wasDelivered && cmdName == "extract" && destKind == "long-name" {
+		// no temporary file can be made next to such a name: failing (with the destination as it was) is fine
+		c.Count("long_name_refused", 1)
+	} else if err != nil && !wasDelivered && cmdName != "verify-index" {
 		c.Violation("failed-without-signal:cli-"+cmdName, "desync %v failed without a signal: %v\n%s", args, err, stderr.String())
 		return
 	}
